@@ -13,10 +13,14 @@
                           is pending the loop does not poll any other arm):
       226-255  SIGINT : [if admin_only { continue }] (a second SIGINT is ignored);
                         [admin_only = true]; [shutdown_tx.send(())] (every receiver that exists now
-                        sees one [()]: receivers are created at accept, line 271);
-                        [drain_tx.send(0).await] (a 0 is QUEUED behind whatever is in flight);
+                        sees one [()]: receivers are created at accept, line 271)          = Sigint
+                        -- from here on the client tasks (other worker threads) react --
+                        [drain_tx.send(0).await] (a 0 is QUEUED behind whatever is in flight — and
+                        behind the -1 of any client that has already reacted to the broadcast);
                         spawn the timer task: [interval(shutdown_timeout)], two ticks (the first is
-                        immediate), then [exit_tx.send(()).await]                       = Sigint, TimerFire
+                        immediate), then [exit_tx.send(()).await]                       = SigintQ, TimerFire
+               The arm is NOT atomic with respect to the clients: the model splits it at the point
+               where the broadcast has been sent (Sigint / SigintQ, [mid_sigint] in between).
                ([tokio::time::interval] panics on a zero period: with [shutdown_timeout = 0] the
                 timer task dies and never sends: [tzero] below; config.rs accepts 0)
       257-260  SIGTERM: [break]                                                         = Sigterm
@@ -37,10 +41,12 @@
                2048 unreceived +1/-1, e.g. a burst of connections or cancel requests — waits for a
                receiver that is the suspended loop itself: wedged before the timer task exists.)
       337-339  after the loop the runtime is dropped and the process exits               = [exited]
-    src/client.rs:131-333 [client_entrypoint]: startup; for a client that is not admin
-                          [drain.send(1)] after a successful startup, [handle()],
-                          [drain.send(-1)] after [handle()] RETURNS (Ok or Err).  A panic inside
-                          [handle()] unwinds through the entrypoint: no -1 is sent ([Panic]).
+    src/client.rs:131-333 [client_entrypoint]: startup (the client is ANSWERED: AuthenticationOk ..
+                          ReadyForQuery, = AuthDone); only then, for a client that is not admin,
+                          [drain.send(1)] (= Enter), [handle()], and [drain.send(-1)] after [handle()]
+                          RETURNS (Ok or Err).  Between AuthDone and Enter the client believes it is
+                          connected (it may already have sent a query) but nobody counts it ([Authed]).
+                          A panic inside [handle()] unwinds through the entrypoint: no -1 ([Panic]).
                301-327    a CancelRequest is a client, too ([admin = false], line 830): +1, its
                           [handle()] forwards the cancel and returns, -1.  It is not subject to the
                           [admin_only] gate ([Canc]).
@@ -115,10 +121,15 @@ Record state : Type := mkS {
   leaked : Z;                  (* ghost: counted clients whose task panicked *)
   zero_sends : nat;            (* ghost: exit messages sent by the drain arm *)
   log : list obs;              (* newest first *)
-  mid_sigint : bool }.         (* the main loop is inside the SIGINT arm, between the broadcast and [drain_tx.send(0)] *)
+  mid_sigint : bool;           (* the main loop is inside the SIGINT arm, between the broadcast and the 0 *)
+  blk : bool }.                (* MUTANT switch: true = the code before commit 74943d0, where the loop AWAITED room in
+                                  the channels it reads itself ([send().await]); false = the code as it is now ([try_send]) *)
 
-Definition init (tz : bool) (cap : nat) : state :=
-  mkS false 0 TNone None false None [] [] tz cap 0 0 [] false.
+Definition init (tz : bool) (cap : nat) (b : bool) : state :=
+  mkS false 0 TNone None false None [] [] tz cap 0 0 [] false b.
+
+(** the code as it is: shutdown_timeout > 0 (config.rs rejects 0 since 6453b21), 2048 slots, try_send *)
+Definition init_real : state := init false 2048 false.
 
 Inductive event : Type :=
 | Sigint | Sigterm
@@ -149,19 +160,19 @@ Definition set_pend (c : client) (b : bool) : client :=
 
 Definition with_clients (st : state) (cs : list client) : state :=
   mkS (admin_only st) (total st) (tmr st) (exit_q st) (wedged st) (exited st) (queue st) cs
-      (tzero st) (qcap st) (leaked st) (zero_sends st) (log st) (mid_sigint st).
+      (tzero st) (qcap st) (leaked st) (zero_sends st) (log st) (mid_sigint st) (blk st).
 Definition with_queue (st : state) (q : list Z) : state :=
   mkS (admin_only st) (total st) (tmr st) (exit_q st) (wedged st) (exited st) q (clients st)
-      (tzero st) (qcap st) (leaked st) (zero_sends st) (log st) (mid_sigint st).
+      (tzero st) (qcap st) (leaked st) (zero_sends st) (log st) (mid_sigint st) (blk st).
 Definition with_log (st : state) (o : obs) : state :=
   mkS (admin_only st) (total st) (tmr st) (exit_q st) (wedged st) (exited st) (queue st) (clients st)
-      (tzero st) (qcap st) (leaked st) (zero_sends st) (o :: log st) (mid_sigint st).
+      (tzero st) (qcap st) (leaked st) (zero_sends st) (o :: log st) (mid_sigint st) (blk st).
 Definition with_leak (st : state) : state :=
   mkS (admin_only st) (total st) (tmr st) (exit_q st) (wedged st) (exited st) (queue st) (clients st)
-      (tzero st) (qcap st) (leaked st + 1) (zero_sends st) (log st) (mid_sigint st).
+      (tzero st) (qcap st) (leaked st + 1) (zero_sends st) (log st) (mid_sigint st) (blk st).
 Definition with_exit (st : state) (x : cause) : state :=
   mkS (admin_only st) (total st) (tmr st) (exit_q st) (wedged st) (Some x) (queue st) (clients st)
-      (tzero st) (qcap st) (leaked st) (zero_sends st) (OExit x :: log st) (mid_sigint st).
+      (tzero st) (qcap st) (leaked st) (zero_sends st) (OExit x :: log st) (mid_sigint st) (blk st).
 
 Definition send (st : state) (m : Z) : state := with_queue st (queue st ++ [m]).
 Definition put (st : state) (i : nat) (c : client) : state := with_clients st (upd_nth (clients st) i c).
@@ -195,7 +206,7 @@ Definition step (st : state) (e : event) : option state :=
       if admin_only st then Some st else
       Some (mkS true (total st) (tmr st) (exit_q st) (wedged st) (exited st) (queue st)
                 (map (fun c => set_pend c true) (clients st))
-                (tzero st) (qcap st) (leaked st) (zero_sends st) (log st) true)
+                (tzero st) (qcap st) (leaked st) (zero_sends st) (log st) true (blk st))
   | Sigterm =>
       if negb (main_ok st) then None else Some (with_exit st ByTerm)
   | Accept k m =>
@@ -282,21 +293,24 @@ Definition step (st : state) (e : event) : option state :=
           if (t =? 0) && admin_only st then
             match exit_q st with
             | None => Some (mkS (admin_only st) t (tmr st) (Some ByZero) false (exited st) q (clients st)
-                                (tzero st) (qcap st) (leaked st) (S (zero_sends st)) (log st) (mid_sigint st))
-            | Some _ => Some (mkS (admin_only st) t (tmr st) (exit_q st) true (exited st) q (clients st)
-                                  (tzero st) (qcap st) (leaked st) (zero_sends st) (log st) (mid_sigint st))
+                                (tzero st) (qcap st) (leaked st) (S (zero_sends st)) (log st) (mid_sigint st) (blk st))
+            | Some _ =>
+                (* [exit_tx.try_send(())] on the full one-slot channel: the message is dropped, an exit is
+                   already on its way.  (Mutant [blk]: [send().await] never returns.) *)
+                Some (mkS (admin_only st) t (tmr st) (exit_q st) (blk st) (exited st) q (clients st)
+                          (tzero st) (qcap st) (leaked st) (zero_sends st) (log st) (mid_sigint st) (blk st))
             end
           else Some (mkS (admin_only st) t (tmr st) (exit_q st) (wedged st) (exited st) q (clients st)
-                         (tzero st) (qcap st) (leaked st) (zero_sends st) (log st) (mid_sigint st))
+                         (tzero st) (qcap st) (leaked st) (zero_sends st) (log st) (mid_sigint st) (blk st))
       end
   | TimerFire =>
       match tmr st with
       | TArmed =>
           match exit_q st with
           | None => Some (mkS (admin_only st) (total st) TSent (Some ByTimer) (wedged st) (exited st) (queue st)
-                              (clients st) (tzero st) (qcap st) (leaked st) (zero_sends st) (log st) (mid_sigint st))
+                              (clients st) (tzero st) (qcap st) (leaked st) (zero_sends st) (log st) (mid_sigint st) (blk st))
           | Some _ => Some (mkS (admin_only st) (total st) TBlocked (exit_q st) (wedged st) (exited st) (queue st)
-                                (clients st) (tzero st) (qcap st) (leaked st) (zero_sends st) (log st) (mid_sigint st))
+                                (clients st) (tzero st) (qcap st) (leaked st) (zero_sends st) (log st) (mid_sigint st) (blk st))
           end
       | _ => None
       end
@@ -310,14 +324,21 @@ Definition step (st : state) (e : event) : option state :=
       (* main.rs:238-254: [drain_tx.send(0).await], then spawn the timer task *)
       if negb (mid_sigint st) || wedged st then None else
       if (qcap st <=? length (queue st))%nat then
-        (* the send waits for a free slot; the only receiver is this suspended loop: for ever, and the
-           timer task is never spawned *)
-        Some (mkS (admin_only st) (total st) (tmr st) (exit_q st) true (exited st) (queue st) (clients st)
-                  (tzero st) (qcap st) (leaked st) (zero_sends st) (log st) false)
+        (* [drain_tx.try_send(0)] on a full channel: the 0 is dropped — the counter is looked at again when
+           the next message arrives — and the timer task is spawned all the same.
+           (Mutant [blk]: [send(0).await] waits for a receiver that is this suspended loop, for ever, and the
+           timer task is never spawned.) *)
+        if blk st then
+          Some (mkS (admin_only st) (total st) (tmr st) (exit_q st) true (exited st) (queue st) (clients st)
+                    (tzero st) (qcap st) (leaked st) (zero_sends st) (log st) false (blk st))
+        else
+          Some (mkS (admin_only st) (total st) (if tzero st then TDead else TArmed) (exit_q st) (wedged st) (exited st)
+                    (queue st) (clients st)
+                    (tzero st) (qcap st) (leaked st) (zero_sends st) (log st) false (blk st))
       else
         Some (mkS (admin_only st) (total st) (if tzero st then TDead else TArmed) (exit_q st) (wedged st) (exited st)
                   (queue st ++ [0]) (clients st)
-                  (tzero st) (qcap st) (leaked st) (zero_sends st) (log st) false)
+                  (tzero st) (qcap st) (leaked st) (zero_sends st) (log st) false (blk st))
   | Enter i =>
       match nth_error (clients st) i with
       | Some c =>
@@ -340,7 +361,7 @@ Fixpoint run (st : state) (tr : list event) : option state :=
   | e :: r => match step st e with Some st' => run st' r | None => None end
   end.
 
-Definition reachable (st : state) : Prop := exists tz cap tr, run (init tz cap) tr = Some st.
+Definition reachable (st : state) : Prop := exists tz cap b tr, run (init tz cap b) tr = Some st.
 
 (** ** Derived quantities *)
 
